@@ -25,6 +25,7 @@ RULE = ("three kinds of case, both vendors: `manifest` = 1-8 batches of sizes 0-
         "before preparation) / permuted / repeated-label index. non-trivial = prep succeeded and at least one card was looked up, or prep refused; "
         "distinct = distinct canonical input")
 EXHAUSTIVE = {"quick": False, "thorough": False}
+RULE += "; option stream (n/10 more cases, own generator, OPTIONS_AUDIT.md): incoming frames with further columns and / or another column order, samples as numpy integer arrays (int64 / int32 / uint32)"
 
 DOM_COLS = ["Tray #", "Tabulator Number", "Batch Number", "Total Ballots", "VBMCart.Cart number"]
 HART_COLS = ["Container", "Tabulator", "Batch Name", "Number of Ballots"]
